@@ -567,6 +567,16 @@ func (t *Terminfo) TParm(s string, p ...interface{}) string {
 			ai, stk = stk.PopInt()
 			stk = stk.Push(ai < bi)
 
+		case 'A': // logical AND
+			bi, stk = stk.PopInt()
+			ai, stk = stk.PopInt()
+			stk = stk.Push(ai != 0 && bi != 0)
+
+		case 'O': // logical OR
+			bi, stk = stk.PopInt()
+			ai, stk = stk.PopInt()
+			stk = stk.Push(ai != 0 || bi != 0)
+
 		case '?': // start conditional
 
 		case ';':
